@@ -404,13 +404,12 @@ def importAllowed (r : String × String) : Bool :=
 /-- variables that are written after package initialisation, with the mutex that guards them -/
 def guardedVars : List (String × String) := [("environment.regCache", "regCacheLock")]
 
-/-- one entry of `packageVarAccesses`: "var|pkg:function|read/write|lock" -/
-def accessOk (a : String) : Bool :=
-  match a.splitOn "|" with
-  | [v, fn, kind, lock] =>
-    match guardedVars.lookup v with
-    | some l => lock == l || fn.endsWith ":init"
-    | none => kind == "read" || fn.endsWith ":init"
-  | _ => false
+/-- one entry of `packageVarAccesses`: (variable, function, read|write, mutex held, init|other).
+    A variable that is written after initialisation must always be accessed under its mutex;
+    any other variable may only be read outside `init`. -/
+def accessOk (a : String × String × String × String × String) : Bool :=
+  match guardedVars.lookup a.1 with
+  | some l => a.2.2.2.1 == l || a.2.2.2.2 == "init"
+  | none => a.2.2.1 == "read" || a.2.2.2.2 == "init"
 
 end EvalFilter.Spec.Tables
